@@ -931,8 +931,8 @@ Section Full.
   Definition NL (fs fs' : fsmap) (e : entry) : Prop :=
     forall p t, lookup fs' p = Some (NLink t) -> lookup fs p = Some (NLink t) \/ NewLink fs e p t.
 
-  Lemma unpack_entry_full fs tg e st' err :
-    INV fs -> unpack_entry cfg req (fs, tg) e = (st', err) ->
+  Lemma unpack_entry_full final fs tg e st' err :
+    INV fs -> unpack_entry cfg req final (fs, tg) e = (st', err) ->
     INV (fst st') /\ Only ds fs (fst st') /\ fs_le fs (fst st') /\ NL fs (fst st') e.
   Proof.
     intros HI H. pose proof ds_ok as Hds.
@@ -1007,24 +1007,38 @@ Section Full.
       split; [exact Hle|]. split; [exact Hskip|]. split; [exact Htor|]. split; [reflexivity|].
       exists cs, m1, m2, last, r. split; [exact Hcs|]. split; [exact Hfull0|]. split; [exact Ecs|]. split; [exact Hr|].
       rewrite Ep, Epp. reflexivity. }
-    destruct (e_type e) eqn:Ety; try (injection H as <- _; exact Hsame).
-    - (* regular *)
-      destruct (mkdir_all fs (render true ((ds ++ m1) ++ m2))) as [fs1 ok] eqn:Hm.
+    assert (Hwrite : forall fs1 ok cid sz st2 err2,
+              mkdir_all fs (render true ((ds ++ m1) ++ m2)) = (fs1, ok) ->
+              (match kwrite fs1 (render true (((ds ++ m1) ++ m2) ++ [last])) cid sz with
+               | Some fs2 => ((fs2, st2), false)
+               | None => ((fs1, st2), err2)
+               end) = (st', err) ->
+              INV (fst st') /\ Only ds fs (fst st') /\ fs_le fs (fst st') /\ NL fs (fst st') e).
+    { intros fs1 ok cid sz st2 err2 Hm Hk.
       pose proof (guarded_mkdir fs (ds ++ m1) r m2 W HA Hm2 Hr Hmiss fs1 ok Hm) as Haf.
-      destruct (negb ok); [injection H as <- _; exact (Hmk _ Haf)|].
-      match type of H with context [kwrite fs1 ?s ?c ?z] => destruct (kwrite fs1 s c z) as [fs2|] eqn:Hw end;
-        [|injection H as <- _; exact (Hmk _ Haf)].
-      injection H as <- _. cbn [fst]. unfold kwrite in Hw.
+      destruct (kwrite fs1 (render true (((ds ++ m1) ++ m2) ++ [last])) cid sz) as [fs2|] eqn:Hw;
+        [|injection Hk as <- _; exact (Hmk _ Haf)].
+      injection Hk as <- _. cbn [fst]. unfold kwrite in Hw.
       destruct (kcreate_at fs1 (render true (((ds ++ m1) ++ m2) ++ [last]))) as [p|] eqn:Hc; [|discriminate].
       destruct (create_loc fs (ds ++ m1) r m2 W HA Hm2 Hr Hmiss fs1 last p Hlast Haf Hlst Hc) as (pp & Ep & Hpp & Hinp & [Hn|Hd] & _).
       + rewrite Hn in Hw. injection Hw as <-. eapply Hfin; eauto. intros t Ht. discriminate.
-      + rewrite Hd in Hw. discriminate.
+      + rewrite Hd in Hw. discriminate. }
+    destruct (e_type e) eqn:Ety; try (injection H as <- _; exact Hsame).
+    - (* regular *)
+      destruct (mkdir_all fs (render true ((ds ++ m1) ++ m2))) as [fs1 ok] eqn:Hm.
+      destruct (negb ok);
+        [injection H as <- _; exact (Hmk _ (guarded_mkdir fs (ds ++ m1) r m2 W HA Hm2 Hr Hmiss fs1 ok Hm))|].
+      eapply Hwrite; eauto.
     - (* symlink *)
       destruct (mkdir_all fs (render true ((ds ++ m1) ++ m2))) as [fs1 ok] eqn:Hm.
       destruct (negb ok && u_err_return cfg);
         [injection H as <- _; exact (Hmk _ (guarded_mkdir fs (ds ++ m1) r m2 W HA Hm2 Hr Hmiss fs1 ok Hm))|].
       destruct (target_outside_root (u_marker cfg) (clean (e_name e)) (e_link e)) eqn:Htor;
         [injection H as <- _; exact (Hmk _ (guarded_mkdir fs (ds ++ m1) r m2 W HA Hm2 Hr Hmiss fs1 ok Hm))|].
+      destruct (u_ignore cfg).
+      { destruct (kread fs1 (u_cwd cfg) _) as [[cid sz]|];
+          [|injection H as <- _; exact (Hmk _ (guarded_mkdir fs (ds ++ m1) r m2 W HA Hm2 Hr Hmiss fs1 ok Hm))].
+        eapply Hwrite; eauto. }
       eapply Hlink; eauto. unfold is_link_entry. rewrite Ety. reflexivity.
     - (* hard link entry: same code path *)
       destruct (mkdir_all fs (render true ((ds ++ m1) ++ m2))) as [fs1 ok] eqn:Hm.
@@ -1032,18 +1046,22 @@ Section Full.
         [injection H as <- _; exact (Hmk _ (guarded_mkdir fs (ds ++ m1) r m2 W HA Hm2 Hr Hmiss fs1 ok Hm))|].
       destruct (target_outside_root (u_marker cfg) (clean (e_name e)) (e_link e)) eqn:Htor;
         [injection H as <- _; exact (Hmk _ (guarded_mkdir fs (ds ++ m1) r m2 W HA Hm2 Hr Hmiss fs1 ok Hm))|].
+      destruct (u_ignore cfg).
+      { destruct (kread fs1 (u_cwd cfg) _) as [[cid sz]|];
+          [|injection H as <- _; exact (Hmk _ (guarded_mkdir fs (ds ++ m1) r m2 W HA Hm2 Hr Hmiss fs1 ok Hm))].
+        eapply Hwrite; eauto. }
       eapply Hlink; eauto. unfold is_link_entry. rewrite Ety. reflexivity.
   Qed.
 
-  Lemma unpack_pass_full : forall es fs tg st' err,
-    INV fs -> unpack_pass cfg req (fs, tg) es = (st', err) ->
+  Lemma unpack_pass_full final : forall es fs tg st' err,
+    INV fs -> unpack_pass cfg req final (fs, tg) es = (st', err) ->
     INV (fst st') /\ Only ds fs (fst st') /\ fs_le fs (fst st').
   Proof.
     induction es as [|e es IH]; intros fs tg st' err HI H.
     - cbn in H. injection H as <- _. split; [exact HI|]. split; [apply Only_refl|apply fs_le_refl].
     - cbn [unpack_pass] in H.
-      destruct (unpack_entry cfg req (fs, tg) e) as [[fs1 tg1] err1] eqn:E1.
-      destruct (unpack_entry_full fs tg e _ _ HI E1) as (HI1 & HO1 & HL1 & _). cbn [fst] in *.
+      destruct (unpack_entry cfg req final (fs, tg) e) as [[fs1 tg1] err1] eqn:E1.
+      destruct (unpack_entry_full final fs tg e _ _ HI E1) as (HI1 & HO1 & HL1 & _). cbn [fst] in *.
       destruct err1; [injection H as <- _; auto|].
       destruct (IH fs1 tg1 st' err HI1 H) as (HI2 & HO2 & HL2).
       split; [exact HI2|]. split; [eapply Only_trans; eauto|eapply fs_le_trans; eauto].
@@ -1056,8 +1074,8 @@ Section Full.
     induction n as [|n IH]; intros es fs tg st' err HI H.
     - cbn in H. injection H as <- _. split; [exact HI|]. split; [apply Only_refl|apply fs_le_refl].
     - cbn [unpack_passes] in H.
-      destruct (unpack_pass cfg req (fs, tg) es) as [[fs1 tg1] err1] eqn:E1.
-      destruct (unpack_pass_full es fs tg _ _ HI E1) as (HI1 & HO1 & HL1). cbn [fst] in *.
+      destruct (unpack_pass cfg req match n with O => true | _ => false end (fs, tg) es) as [[fs1 tg1] err1] eqn:E1.
+      destruct (unpack_pass_full _ es fs tg _ _ HI E1) as (HI1 & HO1 & HL1). cbn [fst] in *.
       destruct err1; [injection H as <- _; auto|].
       destruct (IH es fs1 tg1 st' err HI1 H) as (HI2 & HO2 & HL2).
       split; [exact HI2|]. split; [eapply Only_trans; eauto|eapply fs_le_trans; eauto].
